@@ -234,9 +234,9 @@ def run_kernel(ctx, mm, sem, parser, kernel, ports, uops_of, info, inc, trace=Tr
     eps = Fraction(inc) / 2 * m_max + Fraction(1, 10**9)
     check_state(ctx, "once", kernel, uops_of, n, eps, info)
     check_colsums(ctx, sem, kernel, "once", info)
-    if trace and log and len(kernel) > 8:
-        # the attribution of recorded moves to micro-ops (`attribute_residuals`) is validated for kernels of up to 8 lines (every
-        # quick-tier seed); on long kernels with several overlapping micro-ops per instruction it can fail to find an attribution
+    if trace and log and len(kernel) > 8 and info.get("kind") == "synthetic":
+        # the attribution of recorded moves to micro-ops (`attribute_residuals`) is validated for synthetic kernels of up to 8 lines (every
+        # quick-tier seed) and for the shipped kernels; on long synthetic kernels with several overlapping micro-ops per instruction it can fail to find an attribution
         # although the state is feasible (thorough tier, 20+ lines) -- a limit of the harness, not of the code: such kernels are
         # judged by the feasibility oracle only
         ctx.count("traces_not_replayed_long_kernel")
